@@ -8,6 +8,7 @@ from mc.framework import Result
 
 ID = "C10"
 LEVEL = "model_checking"
+RNG_LAW_PROPERTY = True   # see framework._work: a library-side random.seed() is a violation
 BATCH = 1
 RULE = ("for every graph in the box and every size limit, the real MPCC is run once per alternative offered at its "
         "shuffle point: the product over clique-size classes of all permutations of the class (classes of >= 3-vertex "
